@@ -943,8 +943,15 @@ Definition case_mismatch (c : c09_case) : bool :=
   | MCalib =>
       let init := seq 0 (c_pop c) in
       let gens := [seq (c_pop c) (c_evals c)] in
+      (* the evaluations after the last evolution: the champions' data, recomputed lazily (at .load()) by the
+         new path, inside the call by the deprecated pyxel.calibration_mode(compute_and_save=True) *)
+      let lazy := filter (fun r => Nat.leb (c_pop c + c_evals c) (r_id r)) (c_runs c) in
       match calib beh compute_seq transport_model (c_pl c) (c_nsteps c) init gens with
-      | Ok _ => negb (xres_agrees c (entry_outcome c (Ok tt)) (o_call c))
+      | Ok _ =>
+          match c_entry c, compute_seq (map (cell beh (c_pl c) (c_nsteps c)) lazy) with
+          | EDeprecated, Raise _ => negb (is_raised (o_call c))
+          | _, _ => negb (xres_agrees c (entry_outcome c (Ok tt)) (o_call c))
+          end
       | Raise _ => negb (is_raised (o_call c))
       end
   end.
